@@ -53,7 +53,7 @@ def cases(seed, tier):
     for j, f in enumerate(["test_nonzero.tif", "experimental/exp_1.tif"]):
         for sched in range(1 if q else 3):
             out.append({"fam": "skeleton-fixture", "file": f, "seed": [seed, 9, 3 * 10 ** 5 + 10 * j + sched]})
-    for i in range(8 if q else 120):
+    for i in range(16 if q else 120):
         out.append({"fam": "raster", "seed": [seed, 9, 4 * 10 ** 5 + i], "raw": bool(i % 2)})
     for i in range(12 if q else 150):
         out.append({"fam": "wkt", "seed": [seed, 9, 5 * 10 ** 5 + i]})
@@ -289,8 +289,11 @@ def run_case(case):
                 atexit.register(_sh.rmtree, tmpdir, True)
                 # debris: a free closed ring that shares nothing with the tissue (thinned images only: the corners of an
                 # un-thinned ring are neither minimal nor junction artefacts, i.e. not a skeleton the parser is specified for)
-                ring = (not case["raw"]) and (case["seed"][2] // 2) % 2 == 1
-                img, info = raster.voronoi_image(rng, ncells=int(rng.integers(4, 30)), clean=not case["raw"], ring=ring)
+                # With debris in the image the tissue outline is no longer the first contour; the parser then relies on its
+                # area filter (> 5 mean cell areas) to discard the outline, which needs a tissue of a dozen cells or more.
+                nc_ = int(rng.integers(4, 30))
+                ring = (not case["raw"]) and (case["seed"][2] // 2) % 2 == 1 and nc_ >= 12
+                img, info = raster.voronoi_image(rng, ncells=nc_, clean=not case["raw"], ring=ring)
                 hist["raster-with-free-ring"] = hist.get("raster-with-free-ring", 0) + int(ring)
                 path = os.path.join(tmpdir, "t.tif")
                 raster.save(img, path)
@@ -323,6 +326,14 @@ def run_case(case):
                 centres = [tuple(p) for p in pts]
                 if rng.random() < 0.5:
                     centres = centres + tessellation.add_voronoi_centers(centres)
+                import scipy.spatial as _sp
+                _vor = _sp.Voronoi(centres)
+                if any(a_ >= 0 and b_ >= 0 and tuple(np.round(_vor.vertices[a_], 3)) == tuple(np.round(_vor.vertices[b_], 3))
+                       for a_, b_ in _vor.ridge_vertices):
+                    # a ridge shorter than the three-decimal rounding of the corners collapses to one point: outside the domain
+                    # of the tessellation builder (C19 counts these as undecidable too)
+                    return {"status": "inconclusive", "reason": "rounded-corners-coincide", "hist": {"tess-rounded-corners-coincide": 1},
+                            "counters": dict(mon.evals)}
                 try:
                     elems = tessellation.create_lattice_elements(centres, max_distance=float(rng.uniform(15, 80)))
                 except FloatingPointError:
